@@ -8,6 +8,7 @@ import (
 	"time"
 
 	m "github.com/Eyevinn/dash-mpd/mpd"
+	"github.com/Eyevinn/mp4ff/mp4"
 )
 
 // vDateTimeMS parses a DateTime written by the real code back to Unix milliseconds (native side).
@@ -28,4 +29,13 @@ func vPrepareRegexps(a *asset) {
 		rex = strings.ReplaceAll(rex, "$Time$", `(\d+)`)
 		r.mediaRegexp = regexp.MustCompile(rex)
 	}
+}
+
+// vSamplesOf returns the samples written into a generated segment (native side: decoded from the real fragment).
+func vSamplesOf(seg *mp4.MediaSegment) []mp4.FullSample {
+	ss, err := seg.Fragments[0].GetFullSamples(nil)
+	if err != nil {
+		panic("vSamplesOf: " + err.Error())
+	}
+	return ss
 }
